@@ -70,3 +70,11 @@ package tchannel
 //@   label ordinary-refusal-is-the-closed-channel-error
 //@   atcall SendSystemError arg3 == ErrChannelClosed
 //@   property C10 C04
+
+// C03 "no input crashes the process": the state switch at the head of the inbound
+// admission covers every connection state -- in particular Closed, which the
+// reader goroutine can still observe for frames the peer sent before the socket
+// went down -- so its `panic` for an unknown state is unreachable.
+//@ func (c *Connection) handleCallReq(frame *Frame) (release bool)
+//@   nopanic
+//@   property C03
